@@ -10,7 +10,9 @@ Definition valid (k : case) : Prop :=
   k_old232 k = false /\
   c_continue (k_cfg k) = true /\
   (c_filemode (k_cfg k) = false -> root_ok (c_target (k_cfg k))) /\
-  (forall p, In p (wanted k) -> table_lookup (k_table k) p <> None).
+  (forall p, In p (wanted k) -> table_lookup (k_table k) p <> None) /\
+  (* the name the template loader opens is the name it was given (it is lexically normalised already) *)
+  (forall p, In p (wanted k) -> loader_path (k_cfg k) p = p).
 
 Definition file_of (c : config) (x : ctx) : option str :=
   if c_filemode c then Some (c_target c)
@@ -35,7 +37,7 @@ Qed.
 
 Theorem holds_run_model k : valid k -> holds k (run_model k) = [].
 Proof.
-  intros [Hv [Hc [Hroot Htab]]]. unfold holds, run_model. unfold wanted in Htab.
+  intros [Hv [Hc [Hroot [Htab Hlp]]]]. unfold holds, run_model. unfold wanted in Htab, Hlp.
   destruct (handler_init (k_tftp k) (k_cfg k)) as [r|] eqn:Ei; [|reflexivity].
   pose proof (handler_init_wf _ _ _ Ei) as W.
   assert (Hu : (if k_tftp k then rewrite_filename false (k_uri k) else k_uri k) = eff_uri k).
@@ -55,16 +57,17 @@ Proof.
   - assert (Hfm : (c_filemode (k_cfg k) && negb (forallb (eqb_str (c_target (k_cfg k))) [p])) = false).
     { unfold file_of in Ef. destruct (c_filemode (k_cfg k)); [|reflexivity].
       inversion Ef; subst. cbn. now rewrite eqb_str_refl. }
-    specialize (Htab p (or_introl eq_refl)).
+    specialize (Htab p (or_introl eq_refl)). specialize (Hlp p (or_introl eq_refl)).
+    cbn [map]. rewrite Hlp.
     destruct (k_cached k) eqn:Eca.
     + cbn [o_init negb o_opened o_matches o_class o_body subset_of_one orb andb app forallb].
       rewrite andb_false_r. cbn [app].
-      unfold table_open, serve. rewrite Hv.
+      unfold table_open, serve. cbv beta. rewrite ?Hlp. rewrite Hv.
       destruct (table_lookup (k_table k) p) as [a|]; [|congruence].
       destruct a; cbn [class_of body_of]; cbn; rewrite ?eqb_str_refl; try reflexivity.
     + cbn [o_init negb o_opened o_matches o_class o_body subset_of_one orb].
       rewrite eqb_str_refl. cbn [andb app]. rewrite Hfm. cbn [app].
-      unfold table_open, serve. rewrite Hv.
+      unfold table_open, serve. cbv beta. rewrite ?Hlp. rewrite Hv.
       destruct (table_lookup (k_table k) p) as [a|]; [|congruence].
       destruct a; cbn [class_of body_of]; cbn; rewrite ?eqb_str_refl; try reflexivity.
   - destruct (k_cached k); cbn; rewrite ?andb_false_r; reflexivity.
@@ -73,11 +76,13 @@ Qed.
 Lemma validb_valid k : validb k = true -> valid k.
 Proof.
   unfold validb, valid. intros H.
+  apply andb_true_iff in H as [H H5].
   apply andb_true_iff in H as [H H4]. apply andb_true_iff in H as [H H3]. apply andb_true_iff in H as [H1 H2].
-  apply negb_true_iff in H1. split; [exact H1|]. split; [exact H2|]. split.
+  apply negb_true_iff in H1. split; [exact H1|]. split; [exact H2|]. split; [|split].
   - intros Hfm. rewrite Hfm in H3. cbn [orb] in H3. unfold root_okb in H3.
     apply andb_true_iff in H3 as [H3 Hn]. apply andb_true_iff in H3 as [Hs He].
     apply negb_true_iff in He. apply eqb_str_iff in Hn. repeat split; assumption.
   - intros p Hp. rewrite forallb_forall in H4. specialize (H4 p Hp).
     destruct (table_lookup (k_table k) p); [discriminate|discriminate H4].
+  - intros p Hp. rewrite forallb_forall in H5. apply eqb_str_iff. exact (H5 p Hp).
 Qed.
